@@ -35,3 +35,21 @@ def render(x, names, pool):
 # orthogonal array of strength 2 for 7 binary factors (+ complements): every pair of switch values occurs
 OA7 = ["0000000", "1010101", "0110011", "1100110", "0001111", "1011010", "0111100", "1101001"]
 OA7 = OA7 + ["".join("1" if c == "0" else "0" for c in r) for r in OA7]
+
+
+def has_notin_or(x):
+    """(c NOT IN L1) OR (c NOT IN L2) with disjoint literal lists somewhere in the predicate: the shape of
+    the known simplifier defect findings/C44-not-in-or-not-in-null.md."""
+    if not isinstance(x, dict):
+        return False
+    if x.get("op") == "bin" and x.get("f") == "or":
+        l, r = x["l"], x["r"]
+        if l.get("op") == "in" and r.get("op") == "in" and l["neg"] and r["neg"] and l["e"] == r["e"]:
+            a = {(e["v"]["k"], e["v"]["v"]) for e in l["list"]}
+            b = {(e["v"]["k"], e["v"]["v"]) for e in r["list"]}
+            if not (a & b):
+                return True
+    return any(has_notin_or(x.get(k)) for k in ("l", "r", "e"))
+
+
+NOTIN_KEY = "simplifier:not-in-or-not-in-disjoint-lists-folded-to-true-keeps-null-rows"
